@@ -82,7 +82,8 @@ def tridiagqr_groups(report):
                          "!g_off_band && g_mirrored")],
                   exc_post=[("not computed -> logic_error", "!Q->m_computed && verif_exc == EXC_logic_error")],
                   frame=["*dest", "g_off_band", "g_mirrored"], may_throw=[3], real=QH + ":TridiagQR::matrix_QtHQ")
-    pre2 = [("resize", r"dest\.resize\(m_n, m_n\);\s*dest\.setZero\(\);", "(*dest) = MAT_NEW(m_n, m_n); g_off_band = 0; g_mirrored = 0;", {"max": 1}),
+    pre2 = [("shape", r"\bdest\.(rows|cols)\(\)", r"dest->\1", {"min": 0}),
+            ("resize", r"dest\.resize\(m_n, m_n\);\s*dest\.setZero\(\);", "(*dest) = MAT_NEW(m_n, m_n); g_off_band = 0; g_mirrored = 0;", {"max": 1}),
             ("diag", r"dest\.diagonal\(\)\.noalias\(\) = m_T_diag;", "__CPROVER_assert(VEC_SIZE(m_T_diag) == dest->rows, @Q@Eigen: diagonal() assignment needs n entries@Q@);", {"max": 1}),
             ("subd", r"dest\.diagonal\(-1\)\.noalias\(\) = m_T_subd;", "__CPROVER_assert(VEC_SIZE(m_T_subd) == dest->rows - 1, @Q@Eigen: diagonal(-1) assignment needs n-1 entries@Q@);", {"max": 1}),
             ("mirror", r"dest\.diagonal\(1\)\.noalias\(\) = dest\.diagonal\(-1\);", "g_mirrored = 1;", {"max": 1}),
@@ -96,7 +97,8 @@ def tridiagqr_groups(report):
     report["TridiagQR::matrix_QtHQ"] = R.fired
     alloc2 = ("  TQ Qv; TQ *Q = &Qv; Q->m_n = nondet_Index(); __CPROVER_assume(0 <= Q->m_n && Q->m_n <= NMAX); Q->m_rot_cos = VEC_NEW(ND0(Q->m_n - 1)); Q->m_rot_sin = VEC_NEW(ND0(Q->m_n - 1)); "
               "Q->m_T_diag = VEC_NEW(Q->m_n); Q->m_T_subd = VEC_NEW(ND0(Q->m_n - 1)); Q->m_R_diag = VEC_NEW(0); Q->m_R_supd = VEC_NEW(0); Q->m_R_supd2 = VEC_NEW(0); Q->m_computed = nondet_bool();\n"
-              "  Mat D = MAT_NEW(ND0(nondet_Index()), ND0(nondet_Index())); Mat *dest = &D;\n")
+              "  Mat D = MAT_NEW(ND0(nondet_Index()), ND0(nondet_Index())); Mat *dest = &D;\n"
+              "  g_off_band = nondet_bool(); g_mirrored = nondet_bool();   /* dest arrives with ARBITRARY contents (possibly non-zeros outside the band) */\n")
     nd0 = "static Index ND0(Index v) { if (v < 0) return 0; if (v > NMAX) return NMAX; return v; }\n_Bool g_mirrored;\n"
     groups.append(Group("tridiagqr.matrix_QtHQ", TQ_TYPES + nd0 + t2 + spec2.harness("h", alloc2, "Q, dest"), "h", enforce="tq_QtHQ", solver="cadical", defines=["SCALAR_DOUBLE"], timeout=600,
                         functions=[QH + ":TridiagQR::matrix_QtHQ"], expect_classes=["loop_invariant_step", "Eigen index assertion"],
